@@ -393,5 +393,9 @@ def check(run, fx, tier, floors=True):
     if floors or fx.const("gsub::FEATURE_MASKS") is not None:
         import rules_C04
         rules_C04.t04_fmask(run, fx)
+    import rules_C04 as _c04
+    if floors or any((t["callee"].get("path") or "") in _c04.RUN_SPECS for b in fx.bodies for _, t in b.calls()):
+        # a run bound that is not reduced when a glyph is deleted lets `glyphs[i]` run past the end of the vector
+        _c04.t04_run(run, fx, floors)
     if floors or fx.adt("gpos::Placement") is not None:
         c02_f(run, fx, floors)
